@@ -4,6 +4,7 @@ import (
 	"context"
 	"errors"
 	"net"
+	"os"
 	"strings"
 	"sync"
 	"sync/atomic"
@@ -50,6 +51,8 @@ type Tracker struct {
 	FailListen func(attempt int) error
 	// AcceptGate, when non-nil, is called after Accept returned a connection and before it is handed to the library.
 	AcceptGate func()
+	// Wrap, when non-nil, wraps every (tracked) connection before it is handed to the library.
+	Wrap func(net.Conn) net.Conn
 
 	listens atomic.Int64
 }
@@ -138,10 +141,86 @@ func (t *Tracker) DialFunc(ctx context.Context, network, address string) (net.Co
 	tc := &TrackConn{TCPConn: c.(*net.TCPConn), owner: t} //nolint:forcetypeassert // tcp dial
 	t.mu.Lock()
 	t.conns = append(t.conns, tc)
+	wrap := t.Wrap
 	t.mu.Unlock()
 	finish(nil)
+	if wrap != nil {
+		return wrap(tc), nil
+	}
 
 	return tc, nil
+}
+
+// GateConn is a net.Conn handed to the library whose writes can be made to BLOCK, the way a socket behaves whose
+// peer has a zero window and whose send buffer is full — without depending on kernel buffer sizes. It embeds the
+// net.Conn INTERFACE, so net.Buffers.WriteTo cannot take the writev fast path around Write. A blocked Write ends
+// with os.ErrDeadlineExceeded at the write deadline the library armed (if any) and with net.ErrClosed when the
+// library closes the connection; without either it blocks for as long as the gate is shut.
+type GateConn struct {
+	net.Conn
+	block  atomic.Bool
+	wdl    atomic.Int64 // write deadline, unix nanos; 0 = none
+	closed chan struct{}
+	once   sync.Once
+	// BlockedWrites counts Write calls that found the gate shut.
+	BlockedWrites atomic.Int64
+}
+
+// NewGateConn wraps c.
+func NewGateConn(c net.Conn) *GateConn { return &GateConn{Conn: c, closed: make(chan struct{})} }
+
+// BlockWrites shuts (true) or opens (false) the gate.
+func (g *GateConn) BlockWrites(on bool) { g.block.Store(on) }
+
+// Write blocks while the gate is shut.
+func (g *GateConn) Write(b []byte) (int, error) {
+	first := true
+	for g.block.Load() {
+		if first {
+			g.BlockedWrites.Add(1)
+			first = false
+		}
+		select {
+		case <-g.closed:
+			return 0, net.ErrClosed
+		default:
+		}
+		if dl := g.wdl.Load(); dl != 0 && time.Now().UnixNano() >= dl {
+			return 0, os.ErrDeadlineExceeded
+		}
+		time.Sleep(time.Millisecond)
+	}
+
+	return g.Conn.Write(b)
+}
+
+// SetWriteDeadline records the deadline for blocked writes and passes it on.
+func (g *GateConn) SetWriteDeadline(t time.Time) error {
+	if t.IsZero() {
+		g.wdl.Store(0)
+	} else {
+		g.wdl.Store(t.UnixNano())
+	}
+
+	return g.Conn.SetWriteDeadline(t)
+}
+
+// SetDeadline covers both directions.
+func (g *GateConn) SetDeadline(t time.Time) error {
+	if t.IsZero() {
+		g.wdl.Store(0)
+	} else {
+		g.wdl.Store(t.UnixNano())
+	}
+
+	return g.Conn.SetDeadline(t)
+}
+
+// Close releases blocked writers and closes the wrapped connection.
+func (g *GateConn) Close() error {
+	g.once.Do(func() { close(g.closed) })
+
+	return g.Conn.Close()
 }
 
 // TrackListener wraps the listener handed to a passive library.
@@ -163,7 +242,11 @@ func (l *TrackListener) Accept() (net.Conn, error) {
 	tc := &TrackConn{TCPConn: c, owner: l.owner}
 	l.owner.mu.Lock()
 	l.owner.conns = append(l.owner.conns, tc)
+	wrap := l.owner.Wrap
 	l.owner.mu.Unlock()
+	if wrap != nil {
+		return wrap(tc), nil
+	}
 
 	return tc, nil
 }
